@@ -817,7 +817,10 @@ impl JobServerHandle {
             if got_token {
                 return Ok(());
             }
-            backoff *= 2;
+            // Doubling without bound overflows `Duration` after about 65 waits (a
+            // little over a minute without a token) and panics; the wait is capped
+            // at one second anyway.
+            backoff = cmp::min(backoff * 2, Duration::from_secs(1));
             {
                 let has_token = {
                     let state = self.state.borrow();
